@@ -65,6 +65,30 @@ P = {
          "explicit-state BFS over update/show/delete/out-delete sequences interleaved with commits and edits",
          "Same BFS; in every state `checkpoint show` must equal what the last successful update printed (or fail), updates record HEAD or the given id, and without a checkpoint analyze and run cover every target.",
          "As C02.", "4/C19"),
+ "C11": (True, "px", "exploration",
+         "bounded exhaustive enumeration of argmap/definition/argument combinations on real runs with traced children",
+         "Presence lattice of base/named/missing argmap files x --argmaps orders x --no-base-argmaps x --args x custom argmap and command directories x explicit/empty definitions x argument strings with spaces, quotes, newlines, empty strings: argv, cwd and argv[0] recorded by the started executable itself must equal the documented concatenation, the target directory and the resolved file.",
+         "Dimensions are combined in four covering families rather than one full product (stated in the rule).", "4/C11"),
+ "C12": (True, "px", "model_checking",
+         "explicit-state BFS to fixpoint over run histories, state = actual disk content of the output directory",
+         "For max_retained_runs in {1,2} (thorough {1,2,3}) the reachable set of output-directory states under an alphabet of three distinguishable completing runs is explored until no new state appears; after every transition result show, log show, log show --id and the directory count are checked.",
+         "Only completing runs are in the alphabet (observation O1).", "4/C12"),
+ "C13": (True, "px", "fault_enumeration",
+         "crash-point enumeration: abort at every guarded point and SIGKILL at every child state of a victim run, after prefix histories",
+         "A victim run is terminated at each of 11 guarded points around slot set-up, execution, result file and run pointer (including between truncation and write) and at 4 logical child states, after 0/1/max/max+1 completed runs; afterwards result show, log show, the checkpoint and the next run must be as if the victim never happened.",
+         "Process death only; no power-loss semantics.", "4/C13"),
+ "C14": (True, "px", "model_checking",
+         "explicit-state search of the lock-contender machine executed on real processes held at guarded points",
+         "Every ordered pair (thorough: triples) of the four locking APIs, every maximal sequence of attempt / finish holder / SIGKILL holder, executed from scratch: never two past acquisition; losers exit with a lock error, start nothing and leave the output directory byte-identical; a free lock is acquired at once.",
+         "The window between lock.pre and bind is not subdivided.", "4/C14"),
+ "C15": (True, "px", "fault_enumeration",
+         "listener-fault enumeration over logical positions of a controlled run",
+         "Listener absent or attached with filter variants, killed (SIGKILL/SIGTERM) before the run, after connect, mid-output, between groups, after the last burst; statuses, exit status and decoded stored logs must equal the listener-absent baseline of the same burst pattern.",
+         "Kill instants are logical states of the controlled children, not arbitrary times.", "4/C15"),
+ "C20": (True, "px", "model_checking",
+         "exhaustive filter enumeration plus held-point interleavings of concurrent flushes on the shared connection",
+         "All 48 listener filter combinations over 2 targets x 2 commands x 2 streams with real `log tail`, plus schedules in which the first flushing task is held inside the critical section while others contend; the listener output must parse into header-introduced blocks, only for admitted keys, reassembling to the stored logs.",
+         "TCP timing is free-running.", "4/C20"),
 }
 
 TODO_REASON = "check not built yet in this round (design in DESIGN.md section 4); will be claimed once its explorer exists"
